@@ -499,7 +499,6 @@ def search(ctx):
 
 
 def replay(ctx, obj):
-    import random
     case = obj['case']
     if 'handles' in case:
         name, fname, n_descr, n_states = case['mdib']
@@ -539,5 +538,4 @@ def replay(ctx, obj):
         ids = 'err ' + type(ex).__name__
     bad = judge_texts(store, (refs, ver, langs, widths, nols), ids)
     print('returned ids:', ids, '->', bad)
-    del random
     return bad is not None
